@@ -65,7 +65,9 @@ func (node *Node) processBlocks(ctx context.Context) error {
 			continue
 		}
 
-		if err := node.ProcessBlock(ctx, block); err != nil {
+		err := node.ProcessBlock(ctx, block)
+		node.state.FinishedBlock()
+		if err != nil {
 			c := errors.Cause(err)
 			if c != ErrBlockNotNextBlock && c != ErrBlockNotAdded {
 				header := block.GetHeader()
